@@ -230,9 +230,49 @@ fn is_stmt_like(e: &syn::Expr) -> bool {
     e,
     syn::Expr::While(_) | syn::Expr::Return(_) | syn::Expr::Assign(_) | syn::Expr::Macro(_)
   ) || matches!(e, syn::Expr::Binary(b) if binop(&b.op).map_or(false, |x| x.1))
+    || range_for(e).is_some()
+}
+
+// `for i in lo..hi { body }` over a half-open integer range with an identifier (or `_`) pattern:
+// rendered with the IR's own constructs as
+//   { let i = lo; let __hi = hi; while i < __hi { { body } i += 1; } }
+// (the bounds are evaluated once, the body may `return`; there is no `break` / `continue` in the IR,
+// a body that uses them stays foreign)
+fn range_for(e: &syn::Expr) -> Option<String> {
+  let f = match e {
+    syn::Expr::ForLoop(f) => f,
+    _ => return None,
+  };
+  let var = match &*f.pat {
+    syn::Pat::Ident(i) if i.subpat.is_none() => i.ident.to_string(),
+    syn::Pat::Wild(_) => "_".to_string(),
+    _ => return None,
+  };
+  let r = match &*f.expr {
+    syn::Expr::Range(r) if matches!(r.limits, syn::RangeLimits::HalfOpen(_)) => r,
+    _ => return None,
+  };
+  let (lo, hi) = match (&r.start, &r.end) {
+    (Some(a), Some(b)) => (expr(a), expr(b)),
+    _ => return None,
+  };
+  let body_toks = toks(&f.body);
+  if body_toks.contains("break") || body_toks.contains("continue") {
+    return None;
+  }
+  Some(format!(
+    "SExpr (EBlock (Blk [SLet [{v}] ({lo}); SLet [\"__hi\"] ({hi}); SWhile (EBin Lt (EVar {v}) (EVar \"__hi\")) (Blk [SExpr (EBlock ({body})); SOpAssign Add {v} (ELit 1)] None)] None))",
+    v = q(&var),
+    lo = lo,
+    hi = hi,
+    body = block(&f.body)
+  ))
 }
 
 fn stmt_of_expr(e: &syn::Expr) -> Option<String> {
+  if let Some(st) = range_for(e) {
+    return Some(st);
+  }
   match e {
     syn::Expr::While(w) => {
       if matches!(&*w.cond, syn::Expr::Let(_)) {
@@ -447,6 +487,10 @@ fn expr(e: &syn::Expr) -> String {
         syn::Member::Unnamed(i) => i.index.to_string(),
       };
       format!("EField ({}) {}", expr(&f.base), q(&m))
+    }
+    // `a[i]` with a plain index (not a range): Index::index on the slice the object derefs to
+    syn::Expr::Index(ix) if !matches!(&*ix.index, syn::Expr::Range(_)) => {
+      format!("ECall \"index\" [{}; {}]", expr(&ix.expr), expr(&ix.index))
     }
     syn::Expr::Tuple(t) => {
       if t.elems.is_empty() {
